@@ -77,7 +77,7 @@ static uint64_t ord_of(const void *p)
 
 static uint64_t lp_digest(uint64_t lp)
 {
-	return gm_digest(lps[lp].state_pointer, lps[lp].rng_ctx->state);
+	return gm_digest(lps[lp].state_pointer, lps[lp].rng_ctx ? lps[lp].rng_ctx->state : NULL);
 }
 static uint64_t tq_of(double t) { return t >= 1e18 ? (1ULL << 62) : t < 0 ? ((1ULL << 62) + 1) : (uint64_t)(t * 4.0); } /* SIMTIME_MAX -> 2^62, negative sentinel -> 2^62+1 */
 
@@ -557,7 +557,8 @@ void verif_trace(unsigned kind, uint64_t a, uint64_t b, uint64_t c)
 /* ------------------------------------------------------------------ model callbacks */
 static void on_init(lp_id_t me)
 {
-	const uint64_t *s = lps[me].rng_ctx->state;
+	static const uint64_t zero[4];
+	const uint64_t *s = lps[me].rng_ctx ? lps[me].rng_ctx->state : zero;
 	if(mode_par || mode_dist) {
 		OP("init %u %llu %llx %llx %llx %llx", rid, (unsigned long long)me, (unsigned long long)s[0],
 		    (unsigned long long)s[1], (unsigned long long)s[2], (unsigned long long)s[3]);
@@ -584,7 +585,10 @@ static void on_dispatch(lp_id_t me, uint64_t tq, unsigned type, const void *pl, 
 
 static void on_fini(lp_id_t me, const struct gm_state *st)
 {
-	uint64_t d = gm_digest(st, lps[me].rng_ctx->state);
+	uint64_t d = gm_digest(st, lps[me].rng_ctx ? lps[me].rng_ctx->state : NULL);
+	static const struct gm_state none;
+	if(!st)
+		st = &none; /* stateless variant */
 	if(mode_par || mode_dist) {
 		OP("finilp %u %llu", rid, (unsigned long long)me);
 		/* the final state is claimed to equal the sequential one only for predicate-terminated runs;
@@ -690,6 +694,7 @@ int main(int argc, char **argv)
 	GM.fwd_tok = (argu(argc, argv, "t0", 0) >> 1) & 1;
 	GM.lib = argu(argc, argv, "lib", 0);
 	GM.live = argu(argc, argv, "live", 0);
+	GM.nostate = argu(argc, argv, "nostate", 0);
 	GM.skew = argu(argc, argv, "skew", 0);
 	unsigned threads = argu(argc, argv, "threads", 2);
 	unsigned ckpt = argu(argc, argv, "ckpt", 3);
